@@ -35,28 +35,57 @@ fn lang_of(name: &str) -> Option<SupportLang> {
 }
 
 /// `Core(Utils(MatchesReference(CyclicRule("a"))))` -> `Core.Utils.MatchesReference.CyclicRule`
+///
+/// The error KIND is compared with the model's, not the exact nesting of the error value: only the
+/// variant names the model knows are kept (in order, outside string literals, up to the first one
+/// that has no error below it). A wrapper variant that merely adds context around an error
+/// (`InTransformation("TF", MalformedVar(..))`) does not change the kind.
 pub fn variant_path(debug: &str) -> String {
-  const LEAVES: [&str; 9] = [
+  const INNER: [&str; 12] = [
+    "Core", "Rewriter", "Utils", "Rule", "Constraints", "Transform", "Fixer", "WrongExpansion", "NthChild", "InvalidRule", "MatchesReference",
+    "UndefinedMetaVar",
+  ];
+  const LEAVES: [&str; 23] = [
     "Yaml", "InvalidKind", "InvalidPattern", "WrongRegex", "InvalidRegex", "InvalidRange", "InvalidTemplate", "InvalidField",
-    "IllegalCharacter",
+    "IllegalCharacter", "InvalidSyntax", "MissPositiveMatcher", "UndefinedUtil", "DuplicateRule", "CyclicRule", "FieldNotSupported", "Cyclic",
+    "AlreadyDefined", "MalformedVar", "UndefinedRewriter", "NoFixInRewriter", "MissingPotentialKinds", "DuplicateRewriter", "UndefinedVar",
   ];
   let b = debug.as_bytes();
   let mut i = 0;
   let mut path: Vec<String> = vec![];
-  loop {
+  let mut first = true;
+  while i < b.len() {
+    if b[i] == b'"' {
+      // skip a string literal of the Debug output
+      i += 1;
+      while i < b.len() && b[i] != b'"' {
+        if b[i] == b'\\' {
+          i += 1;
+        }
+        i += 1;
+      }
+      i += 1;
+      continue;
+    }
+    if !(b[i].is_ascii_alphabetic() || b[i] == b'_') {
+      i += 1;
+      continue;
+    }
     let s = i;
     while i < b.len() && (b[i].is_ascii_alphanumeric() || b[i] == b'_') {
       i += 1;
     }
-    if s == i || !b[s].is_ascii_uppercase() {
+    let name = &debug[s..i];
+    if first && !b[s].is_ascii_uppercase() {
       break;
     }
-    let name = &debug[s..i];
-    path.push(name.to_string());
+    first = false;
     if LEAVES.contains(&name) {
+      path.push(name.to_string());
       break;
     }
     if name == "UndefinedMetaVar" {
+      path.push(name.to_string());
       // UndefinedMetaVar("A", "fix"): keep the section
       if let Some(k) = debug[i..].find("\", \"") {
         let rest = &debug[i + k + 4..];
@@ -66,10 +95,11 @@ pub fn variant_path(debug: &str) -> String {
       }
       break;
     }
-    if i < b.len() && b[i] == b'(' {
-      i += 1;
-    } else {
-      break;
+    if INNER.contains(&name) {
+      path.push(name.to_string());
+    } else if path.is_empty() {
+      // not an error of the rule loader at all (an unknown outermost variant): keep its name
+      path.push(name.to_string());
     }
   }
   path.join(".")
